@@ -140,7 +140,7 @@ def main():
                 solver = None
                 r = vrun.run_harness(unit, h, pu['src_c'], pu['wd'], pu['label_by_line'], 'proof', solver)
                 if tier == 'thorough' and r['status'] == 'ok' and h.get('second_solver', True):
-                    r2 = vrun.run_harness(unit, dict(h, name=h['name'] + '.cadical'), pu['src_c'], pu['wd'], pu['label_by_line'], 'proof', ['--sat-solver', 'cadical'])
+                    r2 = vrun.run_harness(unit, dict(h, name=h['name'] + '.cadical', entry_name=h['name']), pu['src_c'], pu['wd'], pu['label_by_line'], 'proof', ['--sat-solver', 'cadical'])
                     r['second_backend'] = dict(solver='cadical', status=r2['status'], obligations=len(r2['results']), failed=len(r2['failures']), solver_s=r2['solver_s'])
                     if r2['status'] == 'failed':
                         r['status'] = 'failed'
